@@ -31,6 +31,49 @@ def fmtDec (f : Framing) (r : Except Err (Msg × Nat)) : String :=
   | .ok (m, n) => s!"dec {n} ok {fmtMsg (canonTcp f m)}"
   | .error e => s!"dec -1 {e.toString} -"
 
+/-- Parse `n` messages in a row. -/
+def parseMsgs? : Nat → List String → Option (List Msg × List String)
+  | 0, r => some ([], r)
+  | k + 1, r => do
+    let (m, r1) ← parseMsg? r
+    let (ms, r2) ← parseMsgs? k r1
+    some (m :: ms, r2)
+
+/-- `r:<mid>:<tok>:<pay>` / `d:<i>` steps of the datagram exchange scenario → the request each step refers to. -/
+def parseSteps? (steps : List String) : Option (List (Int × Bytes × Bytes)) :=
+  let rec go : List String → List (Int × Bytes × Bytes) → List (Int × Bytes × Bytes) → Option (List (Int × Bytes × Bytes))
+    | [], _, acc => some acc.reverse
+    | s :: r, news, acc =>
+      match s.splitOn ":" with
+      | ["r", mid, tok, pay] =>
+        match Driver.parseInt? mid, Driver.parseHex? tok, Driver.parseHex? pay with
+        | some mid, some tok, some pay => go r (news ++ [(mid, tok, pay)]) ((mid, tok, pay) :: acc)
+        | _, _, _ => none
+      | ["d", i] =>
+        match i.toNat? with
+        | some i =>
+          match news[i]? with
+          | some q => go r news (q :: acc)
+          | none => go r news acc
+        | none => none
+      | _ => none
+  go steps [] []
+
+def streamModel (msgs : List Msg) : String :=
+  let rec go : List Msg → List String → Option (List String)
+    | [], acc => some acc.reverse
+    | m :: r, acc =>
+      match marshalWithEncoder .tcp { newMessage with msg := m } with
+      | .error _ => none
+      | .ok (wire, _) =>
+        match unmarshalWithDecoderN .tcp newMessage wire with
+        | .ok (_, st) => go r (fmtMsg (canonTcp .tcp st.msg) :: acc)
+        | .error _ => none
+  match go msgs [] with
+  | none => "strm encode-error"
+  | some [] => "strm 0 closed=0"
+  | some l => s!"strm {l.length} closed=0 | " ++ " | ".intercalate l
+
 def modelLine (fields : List String) : String :=
   match fields with
   | "size" :: c :: r =>
@@ -68,6 +111,22 @@ def modelLine (fields : List String) : String :=
             full := s!"{n} {e} {Driver.toHex b}"
         return s!"encall {size} ok {nsz} {size + 1} {nclean} {Driver.hex64 h} {full}"
     | _, _ => "bad-op"
+  | "strm" :: _via :: _cache :: _cuts :: n :: r =>
+    match n.toNat? with
+    | some n =>
+      match parseMsgs? n r with
+      | some (ms, []) => streamModel ms
+      | _ => "bad-op"
+    | none => "bad-op"
+  | "udpx" :: _n :: steps =>
+    match parseSteps? steps with
+    | some reqs =>
+      let ds := reqs.filterMap fun (mid, tok, pay) =>
+        match marshalWithEncoder .udp { newMessage with msg := echoResponse mid tok pay } with
+        | .ok (wire, _) => some (Driver.toHex wire)
+        | .error _ => none
+      if ds.isEmpty then "udpx 0" else s!"udpx {ds.length} " ++ " ".intercalate ds
+    | none => "bad-op"
   | "omar" :: _ :: r =>
     match parseMsg? r with
     | some (m, _) =>
@@ -148,6 +207,23 @@ def judgeLine (inp out : List String) : String :=
         | _ => none
       (judgeEncAll f m size err nsz ncan fo).toString
     | _, _, _, _, _ => "bad-op"
+  | "strm" :: _via :: _cache :: _cuts :: n :: r, "strm" :: k :: closed :: rest =>
+    match n.toNat?, k.toNat? with
+    | some n, some _ =>
+      match parseMsgs? n r with
+      | some (ms, []) =>
+        let obs := (splitBar rest).filter (· ≠ [])
+        (judgeStream ms (obs.map fun o => (parseMsg? o).map (·.1)) (closed != "closed=0")).toString
+      | _ => "bad-op"
+    | _, _ => "bad-op"
+  | "strm" :: _, "strm" :: _ => "violates stream-roundtrip"
+  | "udpx" :: _n :: steps, "udpx" :: _k :: sent =>
+    match parseSteps? steps with
+    | some reqs =>
+      let ds := sent.filterMap Driver.parseHex?
+      if ds.length ≠ sent.length then "bad-op"
+      else (judgeExchange (reqs.map fun (mid, tok, pay) => echoResponse mid tok pay) ds).toString
+    | none => "bad-op"
   | "omar" :: _ :: r, "omar" :: n0 :: e0 :: nsz :: ncan :: _dig :: full =>
     match parseMsg? r, Driver.parseInt? n0, nsz.toNat?, ncan.toNat? with
     | some (m, _), some n0, some nsz, some ncan =>
